@@ -142,3 +142,260 @@ def const_origin(os_):
 
 def macro_names(t):
     return [m.split(":", 1)[1] if ":" in m else m for m in t.get("macros", [])]
+
+
+# ---------------------------------------------------------------------------
+# K3: what happens to an io::Result produced at a call site
+# ---------------------------------------------------------------------------
+IO_RESULT_RE = "core::result::Result<"
+PASS_THROUGH = {"map", "map_err", "and_then", "or_else", "or", "and", "inspect", "inspect_err"}
+SWALLOW = {"ok", "err", "is_ok", "is_err", "unwrap_or", "unwrap_or_default", "unwrap_or_else", "is_ok_and", "is_err_and"}
+UNWRAP = {"unwrap", "expect", "unwrap_unchecked", "expect_err", "unwrap_err"}
+
+
+def is_io_result(ty):
+    return ty.startswith("core::result::Result<") and ty.rstrip(">").endswith("std::io::error::Error")
+
+
+def _uses_local(op, l):
+    return op.get("k") in ("cp", "mv") and op["pl"]["l"] == l
+
+
+def _rv_operands(rv):
+    k = rv["rv"]
+    if k in ("use", "cast", "un", "repeat"):
+        return [rv["a"]]
+    if k == "bin":
+        return [rv["a"], rv["b"]]
+    if k == "agg":
+        return list(rv["ops"])
+    if k in ("ref", "rawptr", "discr"):
+        return [{"k": "cp", "pl": rv["pl"]}]
+    return []
+
+
+def result_fate(prog, fn, local, _seen=None):
+    """Set of fates of the Result held in `local`: try | returned | unwrap | swallowed | dropped | passed:<callee> |
+    match-returned | match-swallowed."""
+    seen = _seen or set()
+    if local in seen:
+        return set()
+    seen = seen | {local}
+    if local == 0:
+        return {"returned"}
+    fates = set()
+    matched = False
+    err_payload_moved = []
+    for b, blk in enumerate(fn.blocks):
+        if blk["cleanup"]:
+            continue
+        for s in blk["stmts"]:
+            if s["s"] != "assign":
+                continue
+            rv = s["rhs"]
+            for op in _rv_operands(rv):
+                if not _uses_local(op, local):
+                    continue
+                proj = op["pl"]["p"]
+                if rv["rv"] == "discr":
+                    matched = True
+                elif rv["rv"] in ("use", "cast") and not proj:
+                    if s["lhs"]["l"] == 0 and not s["lhs"]["p"]:
+                        fates.add("returned")
+                    else:
+                        fates |= result_fate(prog, fn, s["lhs"]["l"], seen)
+                elif rv["rv"] == "ref" and not proj:
+                    fates |= result_fate(prog, fn, s["lhs"]["l"], seen)
+                elif proj and any(p == "dc:Err" for p in proj):
+                    err_payload_moved.append(s["lhs"]["l"])
+                elif proj and any(p == "dc:Ok" for p in proj):
+                    pass
+                elif rv["rv"] == "agg":
+                    # wrapped into another value (tuple / struct): follow
+                    fates |= result_fate(prog, fn, s["lhs"]["l"], seen)
+        t = blk["term"]
+        if t and t["t"] == "call":
+            for i, a in enumerate(t["args"]):
+                if not _uses_local(a, local) or a["pl"]["p"]:
+                    continue
+                cn = callee_name(t)
+                callee = t.get("callee") or ""
+                if callee == TRY_BRANCH:
+                    fates.add("try")
+                elif callee.startswith("core::result::Result") and cn in PASS_THROUGH:
+                    fates |= result_fate(prog, fn, t["dest"]["l"], seen)
+                elif callee.startswith("core::result::Result") and cn in SWALLOW:
+                    fates.add("swallowed")
+                elif callee.startswith("core::result::Result") and cn in UNWRAP:
+                    fates.add("unwrap")
+                elif callee in ("core::mem::drop",):
+                    fates.add("dropped")
+                else:
+                    fates.add("passed:" + callee)
+    if matched:
+        ret = False
+        for l in err_payload_moved:
+            if _flows_to_err_return(prog, fn, l, set()):
+                ret = True
+        fates.add("match-returned" if ret else "match-swallowed")
+    if not fates:
+        fates.add("dropped")
+    return fates
+
+
+def _flows_to_err_return(prog, fn, local, seen):
+    if local in seen:
+        return False
+    seen.add(local)
+    for b, blk in enumerate(fn.blocks):
+        if blk["cleanup"]:
+            continue
+        for s in blk["stmts"]:
+            if s["s"] != "assign":
+                continue
+            rv = s["rhs"]
+            for op in _rv_operands(rv):
+                if _uses_local(op, local):
+                    if rv["rv"] == "agg" and rv.get("adt") == "core::result::Result" and rv.get("variant") == "Err":
+                        if s["lhs"]["l"] == 0 or _flows_to_ret(prog, fn, s["lhs"]["l"], set()):
+                            return True
+                    elif rv["rv"] in ("use", "cast"):
+                        if _flows_to_err_return(prog, fn, s["lhs"]["l"], seen):
+                            return True
+    return False
+
+
+def _flows_to_ret(prog, fn, local, seen):
+    if local == 0:
+        return True
+    if local in seen:
+        return False
+    seen.add(local)
+    for blk in fn.blocks:
+        if blk["cleanup"]:
+            continue
+        for s in blk["stmts"]:
+            if s["s"] == "assign" and s["rhs"]["rv"] == "use" and _uses_local(s["rhs"]["a"], local):
+                if _flows_to_ret(prog, fn, s["lhs"]["l"], seen):
+                    return True
+    return False
+
+
+def io_result_sites(prog, fn):
+    """(block, term, fates) for every call in fn whose destination type is io::Result<_>."""
+    out = []
+    for b, t in fn.calls():
+        d = t["dest"]
+        if d["p"]:
+            continue
+        ty = fn.local_ty(d["l"])
+        if not is_io_result(ty):
+            continue
+        if (t.get("callee") or "") in ("core::ops::try_trait::FromResidual::from_residual",):
+            continue
+        if d["l"] == 0:
+            out.append((b, t, {"returned"}))
+        else:
+            out.append((b, t, result_fate(prog, fn, d["l"])))
+    return out
+
+
+def reachable_fns(prog, roots, crates=("abyssiniandb",), stop=()):
+    """Functions (restricted to `crates`) reachable from roots over resolved calls (closures included)."""
+    seen = {}
+    stack = list(roots)
+    while stack:
+        fn = stack.pop()
+        if fn.id in seen or fn.crate not in crates or fn.id in stop:
+            continue
+        seen[fn.id] = fn
+        for b, t in fn.calls():
+            for x in prog.targets(t, fn)[0]:
+                if x.id not in seen:
+                    stack.append(x)
+        for c in prog.closures_of(fn):
+            stack.append(c)
+    return seen
+
+
+# ---------------------------------------------------------------------------
+# constant-bool aware reachability (path sensitivity for `let flg = match .. {A => true, _ => false}; if flg`)
+# ---------------------------------------------------------------------------
+def _flag_locals(fn):
+    """Locals all of whose definitions are `const bool` or a copy of another flag local."""
+    defs = fn.defs()
+    cand = set()
+    for l, ds in defs.items():
+        ok = True
+        for (b, kind, payload) in ds:
+            if kind != "assign" or payload["lhs"]["p"]:
+                ok = False
+                break
+            rv = payload["rhs"]
+            if rv["rv"] != "use":
+                ok = False
+                break
+            a = rv["a"]
+            if a.get("k") == "c" and isinstance(const_val(a), bool):
+                continue
+            if a.get("k") in ("cp", "mv") and not a["pl"]["p"]:
+                continue
+            ok = False
+            break
+        if ok and fn.local_ty(l) == "bool" and l > fn.arg_count:
+            cand.add(l)
+    changed = True
+    while changed:
+        changed = False
+        for l in list(cand):
+            for (b, kind, payload) in defs[l]:
+                a = payload["rhs"]["a"]
+                if a.get("k") in ("cp", "mv") and a["pl"]["l"] not in cand:
+                    cand.discard(l)
+                    changed = True
+                    break
+    return cand
+
+
+def flag_reach(fn, avoid=(), start=0):
+    """Blocks reachable from `start` not entering `avoid`, following only feasible edges of switches on flag locals."""
+    flags = _flag_locals(fn)
+    avoid = set(avoid)
+    init = (start, ())
+    seen = {init}
+    stack = [init]
+    reached = set()
+    while stack:
+        b, st = stack.pop()
+        if b in avoid:
+            continue
+        reached.add(b)
+        env = dict(st)
+        blk = fn.blocks[b]
+        for s in blk["stmts"]:
+            if s["s"] == "assign" and not s["lhs"]["p"] and s["lhs"]["l"] in flags:
+                a = s["rhs"]["a"]
+                if a.get("k") == "c":
+                    env[s["lhs"]["l"]] = const_val(a)
+                else:
+                    v = env.get(a["pl"]["l"])
+                    if v is None:
+                        env.pop(s["lhs"]["l"], None)
+                    else:
+                        env[s["lhs"]["l"]] = v
+        t = blk["term"]
+        succs = fn.normal_succs(b)
+        if t and t["t"] == "switch" and t["dty"] == "bool" and t["discr"].get("k") in ("cp", "mv") \
+                and not t["discr"]["pl"]["p"] and t["discr"]["pl"]["l"] in flags:
+            v = env.get(t["discr"]["pl"]["l"])
+            if v is not None:
+                tg = {val: bb for val, bb in t["targets"]}
+                want = "1" if v else "0"
+                succs = [tg[want]] if want in tg else [t["otherwise"]]
+        st2 = tuple(sorted(env.items()))
+        for s_ in succs:
+            k = (s_, st2)
+            if k not in seen:
+                seen.add(k)
+                stack.append(k)
+    return reached
